@@ -108,11 +108,11 @@ fn emit(em: &mut Emitter, op: &str, k: usize, data: &[u8], sched: &[usize]) {
     run_case(&toks, em);
 }
 
-pub fn generate(thorough: bool, seed: u64, em: &mut Emitter) {
+pub fn generate(thorough: bool, seed: u64, part: (usize, usize), em: &mut Emitter) {
     let mut r = Rng::new(seed ^ 0xC13);
     // 1. declared length shorter than the header (every value), with and without a following frame
     let follow = enc_slow(&[0xaa, 0xbb], 0);
-    for len in 0..8usize {
+    for len in (0..8usize).filter(|_| part.0 == 0) {
         for tail in &[vec![], follow.clone()] {
             let mut d = vec![3, 0, 0, len as u8]; d.extend_from_slice(tail);
             emit(em, "tpkt_read", 2, &d, &[]);
@@ -159,14 +159,14 @@ pub fn generate(thorough: bool, seed: u64, em: &mut Emitter) {
     // 5. thorough: every TPKT length and every fast-path length, a second frame always following
     if thorough {
         let body: Vec<u8> = (0..65536usize).map(|i| (i * 7 + 3) as u8).collect();
-        for len in 0..65536usize {
+        for len in (0..65536usize).filter(|l| l % part.1 == part.0) {
             let mut d = vec![3, 0, (len >> 8) as u8, (len & 0xff) as u8];
             d.extend_from_slice(&body[..len.saturating_sub(4)]);
             d.extend_from_slice(&follow);
             let sched: Vec<usize> = if len % 3 == 0 { vec![0; 8] } else if len % 3 == 1 { vec![] } else { vec![1, 0, 2, 0, 999] };
             emit(em, "tpkt_read", 2, &d, &sched);
         }
-        for len in 0..32768usize {
+        for len in (0..32768usize).filter(|l| l % part.1 == part.0) {
             let mut d = vec![0x80, 0x80 | (len >> 8) as u8, (len & 0xff) as u8];
             d.extend_from_slice(&body[..len.saturating_sub(3)]);
             d.extend_from_slice(&follow);
